@@ -58,7 +58,6 @@ theorem exHolds : Env.HoldsProblem exP Cov.runExMat Cov.runExCov [] where
   dims := rfl
   built := Cov.runExCov_built
   wf := Cov.runExMat_wf
-  nodup := by decide
   rows := rfl
   cols := rfl
   rhs := rfl
@@ -96,7 +95,7 @@ theorem exRun_accepted : ∃ out, @Cov.Hom.run ℝ (Cov.fieldScalar ℝ Real.sqr
     rw [← (Cov.BlockDiag.cholDec_blockwise (Env.bdTol : ℝ) Cov.exBd Cov.exCs [] Cov.exBd_holds Cov.exCs_wf).1]
     exact hacc0
   have h := Cov.Hom.run_spec (K := ℝ) hsq (Env.bdTol : ℝ) Env.bdTol_pos Cov.runExMat Cov.runExCov exP.rhs Cov.exCs []
-    Cov.runExCov_built Cov.exCs_wf Cov.runExMat_wf (by decide) (by decide) (by decide)
+    Cov.runExCov_built Cov.exCs_wf Cov.runExMat_wf (by decide) (by decide)
   rcases hrun : @Cov.Hom.run ℝ (Cov.fieldScalar ℝ Real.sqrt) (Env.bdTol : ℝ) Cov.runExMat Cov.runExCov exP.rhs
     with e | out
   · exact absurd hacc (h.1.1 ⟨e, hrun⟩)
